@@ -123,6 +123,117 @@ def realise(clsname, dts, t0, reuse=False):
     return recs
 
 
+class NumDisc:
+    """numeric twin of SymDisc: every call returns a fresh pseudo-random vector and logs (time, presented state)"""
+
+    def __init__(self, n, reuse=False, seed=12345):
+        self.nelem = n
+        self.calls = []
+        self.ks = []
+        self.reuse = reuse
+        self.rng = np.random.RandomState(seed)
+        self._out = [np.zeros(n)]
+
+    def rhs(self, f):
+        self.calls.append((float(f.time), np.array(f.data[0], dtype=float, copy=True)))
+        k = self.rng.uniform(-1.0, 1.0, self.nelem)
+        self.ks.append(k.copy())
+        if self.reuse:
+            self._out[0][:] = k
+            return self._out
+        return [k]
+
+
+def realise_numeric(clsname, dts, t0, reuse=False, M=16):
+    """the tableau realised by the real step, recovered NUMERICALLY (least squares on pseudo-random RHS vectors): used when the
+    symbolic execution is not possible (the code looked at its numbers -- a NaN test, a dtype conversion -- which is its right).
+    Each dt cell is replicated M times; an explicit one-step method is affine in (y, k_1..k_s), so the presented states and the
+    result determine A and b to round-off"""
+    cls = getattr(tnum, clsname)
+    nc = len(dts)
+    N = nc * M
+    disc = NumDisc(N, reuse=reuse)
+    solver = cls(Msh(N), disc)
+    rng = np.random.RandomState(4321)
+    y = rng.uniform(-1.0, 1.0, N)
+    f = field.fdata(M1(), Msh(N), [y.copy()], t=t0)
+    dtrep = np.repeat(np.array(dts, dtype=float), M)
+    dt = float(dts[0]) if nc == 1 else dtrep
+    solver.step(f, dt)
+    s = len(disc.calls)
+    mindt = Fraction(min(dts))
+    U = Fraction(1, 2 ** 52)
+
+    def rat(x):
+        r = Fraction(float(x)).limit_denominator(1000)
+        if abs(Fraction(float(x)) - r) <= 4096 * U * max(1, abs(r)):
+            return r, True
+        return Fraction(float(x)).limit_denominator(10 ** 4), False
+    recs = []
+    for c in range(nc):
+        sl = slice(c * M, (c + 1) * M)
+        dtc = float(dts[c])
+        exact, affine = True, True
+        A, cp = [], []
+
+        def fit(target, nk):
+            basis = np.stack([y[sl]] + [disc.ks[l][sl] for l in range(nk)], axis=1)
+            coef, *_ = np.linalg.lstsq(basis, target[sl], rcond=None)
+            res = float(np.max(np.abs(basis @ coef - target[sl])))
+            return coef, res
+        for j, (tm, P) in enumerate(disc.calls):
+            coef, res = fit(P, j)
+            affine = affine and res < 1e-11 and abs(coef[0] - 1.0) < 1e-11
+            row = []
+            for l in range(s):
+                v, ex = rat(coef[1 + l] / dtc) if l < j else (Fraction(0), True)
+                exact = exact and ex
+                row.append(v)
+            A.append(row)
+            v, ex = rat((Fraction(tm) - Fraction(t0)) / mindt)
+            cp.append(v)
+        coef, res = fit(np.array(f.data[0], dtype=float), s)
+        affine = affine and res < 1e-11 and abs(coef[0] - 1.0) < 1e-11
+        b = []
+        for l in range(s):
+            v, ex = rat(coef[1 + l] / dtc)
+            exact = exact and ex
+            b.append(v)
+        tend, _ = rat((Fraction(float(f.time)) - Fraction(t0)) / mindt)
+        recs.append(dict(cls=clsname, A=[[core.rat(x) for x in r] for r in A], b=[core.rat(x) for x in b],
+                         cpres=[core.rat(x) for x in cp], tend=core.rat(tend), affine=bool(affine), exact=bool(exact),
+                         poly=[], dts=[str(Fraction(d)) for d in dts], cell=c, reuse=bool(reuse), numeric=True))
+    return recs
+
+
+def stability_poly_numeric(clsname):
+    """coefficients of the stability polynomial fitted on complex samples of the real step applied to y' = z y"""
+    cls = getattr(tnum, clsname)
+    zs = 0.5 * np.exp(2j * np.pi * np.arange(16) / 16)
+
+    class ZD:
+        nelem = 16
+
+        def rhs(self, f):
+            return [zs * f.data[0]]
+    solver = cls(Msh(16), ZD())
+    f = field.fdata(M1(), Msh(16), [np.ones(16, dtype=complex)], t=0.0)
+    solver.step(f, 1.0)
+    g = np.asarray(f.data[0])
+    deg = 8
+    V = np.stack([zs ** k for k in range(deg + 1)], axis=1)
+    coef, *_ = np.linalg.lstsq(V, g, rcond=None)
+    limbs = []
+    for x in np.real(coef[1:]):
+        if abs(x) < 1e-13:
+            x = 0.0
+        v = int(round(float(x) * 10 ** 12))
+        limbs.append([v // 10 ** 6, v % 10 ** 6])
+    while limbs and limbs[-1] == [0, 0]:
+        limbs.pop()
+    return limbs
+
+
 def propagator_points(clsname):
     """timemodel.propagator(z) of the real class at dyadic real z, identified with rationals (den <= 10^5)"""
     out = []
@@ -181,14 +292,24 @@ def run(tier):
         try:
             poly = stability_poly(cn)
         except Exception as ex:
-            poly = []
-            rep.extra.setdefault("poly_failures", []).append("%s: %s" % (cn, ex))
+            try:
+                poly = stability_poly_numeric(cn)
+                rep.extra.setdefault("numeric_fallbacks", []).append("%s: stability polynomial (%s)" % (cn, str(ex)[:60]))
+            except Exception as ex2:
+                poly = []
+                rep.extra.setdefault("poly_failures", []).append("%s: %s" % (cn, ex2))
         for dts, t0, reuse in [(d, t, False) for (d, t) in cfgs] + [(d, t, True) for (d, t) in cfgs[:4]]:
             try:
                 rs = realise(cn, dts, t0, reuse=reuse)
-            except Exception as ex:     # the code inspected a value or raised: an observation, judged as not-an-RK-step
+            except Exception as ex0:    # the code inspected a value (its right): recover the tableau numerically instead
+                try:
+                    rs = realise_numeric(cn, dts, t0, reuse=reuse)
+                    rep.extra.setdefault("numeric_fallbacks", []).append("%s dts=%s: %s" % (cn, dts, str(ex0)[:60]))
+                except Exception as ex:
+                    rs, why_raised = None, "%s: %s" % (type(ex).__name__, str(ex)[:100])
+            if rs is None:              # the real step raised on plain numbers too: an observation, judged as not-an-RK-step
                 rs = [dict(cls=cn, A=[[[0, 1]]], b=[[0, 1]], cpres=[[0, 1]], tend=[0, 1], affine=False, exact=False,
-                           poly=[], prop=[], dts=[str(d) for d in dts], cell=0, raised=str(ex)[:100], reuse=bool(reuse))]
+                           poly=[], prop=[], dts=[str(d) for d in dts], cell=0, raised=why_raised, reuse=bool(reuse))]
             for r in rs:
                 rid += 1
                 r["id"] = rid
